@@ -171,13 +171,20 @@ def apalache_part(chk, tier):
                                                "meaning": "fringe size and ongoing counter unbounded; IndInv = TypeOK /\\ Acc_Ongoing /\\ C04_NoLostWakeup /\\ C04_CompleteMeansDone"}
 
 
+def potential_insts(w, k, maxn=5):
+    """instances of the deferred-rewards variants (non-identity relax) for the composed models"""
+    tr = os.path.join(w, "pot_insts.ndjson")
+    run_bin("dd", ["--seed", SEED * 1000 + 79, "--instances", 12 * k + 40, "--per-instance", 1, "--family", "potential", "--dd", "lel", "--out", tr])
+    return [e["inst"] for e in read_ndjson(tr) if e["ev"] == "reset" and e["inst"]["n"] <= maxn and e["inst"]["b"] <= 4][:k]
+
+
 def mc_seqc_part(chk, w, tier):
     """C09 on the specification: the composed caching search (sequential loop x DD.tla with cache filter and thresholds x ThresholdCache)"""
     thorough = tier == "thorough"
     tr = os.path.join(w, "seqc_insts.ndjson")
     run_bin("dd", ["--seed", SEED * 1000 + 77, "--instances", 120 if not thorough else 600, "--per-instance", 1, "--family", "reconv", "--dd", "lel", "--out", tr])
     insts = [e["inst"] for e in read_ndjson(tr) if e["ev"] == "reset" and e["inst"]["family"] in ("lifted", "knapsack") and e["inst"]["n"] <= 6]
-    insts = insts[: (60 if not thorough else 400)]
+    insts = insts[: (50 if not thorough else 340)] + potential_insts(w, 10 if not thorough else 60)
     f = os.path.join(w, "seqc_insts.json")
     json.dump(insts, open(f, "w"))
     r = mc("MC_SeqC", "MC_SeqC.cfg", workers=8, env={"INSTS": f}, timeout=3600, require_actions=False)
@@ -192,11 +199,12 @@ def mc_parc_part(chk, w, tier):
     run_bin("dd", ["--seed", SEED * 1000 + 78, "--instances", 120 if not thorough else 400, "--per-instance", 1, "--family", "reconv", "--dd", "lel", "--out", tr])
     insts = [e["inst"] for e in read_ndjson(tr) if e["ev"] == "reset" and e["inst"]["family"] in ("lifted", "knapsack") and e["inst"]["n"] <= 6]
     plans = [("MC_ParC_w2.cfg", 20)] if not thorough else [("MC_ParC_w2.cfg", 120), ("MC_ParC_w2_nodup.cfg", 60), ("MC_ParC_w3.cfg", 40)]
+    pots = potential_insts(w, 6 if not thorough else 20)
     for cfg, k in plans:
         f = os.path.join(w, f"parc_insts_{k}.json")
-        json.dump(insts[:k], open(f, "w"))
+        json.dump(insts[:k] + pots[: max(2, k // 6)], open(f, "w"))
         r = mc("MC_ParC", cfg, workers=8, env={"INSTS": f}, timeout=5400, require_actions=False)
-        chk.add_mc(cfg, r, constants=f"Widths = {{1,2}} Cuts = {{lel, fc}}; {min(k, len(insts))} re-convergent instances (n <= 6): {4 * min(k, len(insts))} complete parallel caching searches, "
+        chk.add_mc(cfg, r, constants=f"Widths = {{1,2}} Cuts = {{lel, fc}}; {min(k, len(insts))} re-convergent instances (n <= 6) + {len(pots[: max(2, k // 6)])} deferred-rewards instances: complete parallel caching searches, "
                                      "every interleaving of critical sections, diagram layers and cache publications, every tie-break")
 
 
